@@ -41,7 +41,9 @@ def arg_short(a):
 def arg_valname(a):
     return a["valname"] if a.get("valname") is not None else a["field"].upper()
 
+INT_TYS = ["i8", "u16", "i16", "u32", "i32"]
 RUST_TY = {"str": "&'a str", "u8": "u8", "bool": "bool", "char": "char"}
+RUST_TY.update({t: t for t in INT_TYS})
 
 def enum_needs_lifetime(e):
     for c in e["cmds"]:
@@ -70,6 +72,7 @@ def value_rust(v):
     k, x = v
     if k == "s": return rust_str(x)
     if k == "n": return str(x)
+    if k == "i": return str(x)
     if k == "b": return "true" if x else "false"
     if k == "c": return rust_char(x)
     raise ValueError(v)
@@ -159,7 +162,7 @@ class Emitter:
                 body = ["let mut s = format!(\"{}{{\", hexs(%s));" % name_lit]
                 for i, a in enumerate(fields):
                     sep = "," if i > 0 else ""
-                    conv = {"str": "canon_str", "u8": "canon_u8", "bool": "canon_bool", "char": "canon_char"}[a["ty"]]
+                    conv = {"str": "canon_str", "u8": "canon_u8", "bool": "canon_bool", "char": "canon_char"}.get(a["ty"], "canon_int")
                     if a["optional"]:
                         body.append("s.push_str(&format!(\"%s{}={}\", hexs(%s), match %s { Some(x) => format!(\"S{}\", %s(x)), None => \"N\".to_string() }));" % (
                             sep, rust_str(a["field"]), a["field"], conv))
@@ -251,6 +254,7 @@ use std::rc::Rc;
 fn hexs(s: &str) -> String { crate::hex(s.as_bytes()) }
 fn canon_str(s: &str) -> String { format!("s:{}", crate::hex(s.as_bytes())) }
 fn canon_u8(v: &u8) -> String { format!("n:{}", v) }
+fn canon_int<T: core::fmt::Display>(v: &T) -> String { format!("i:{}", v) }
 fn canon_bool(v: &bool) -> String { format!("b:{}", if *v { 1 } else { 0 }) }
 fn canon_char(v: &char) -> String { format!("c:{}", *v as u32) }
 """
@@ -283,12 +287,20 @@ def ser_value(v):
     k, x = v
     if k == "s": return "s:" + hx(x)
     if k == "n": return "n:%d" % x
+    if k == "i": return "i:%d" % x
     if k == "b": return "b:%d" % (1 if x else 0)
     if k == "c": return "c:%d" % ord(x)
     raise ValueError(v)
 
 TY_CODE = {"str": "S", "u8": "U", "bool": "B", "char": "C"}
 TY_DEFAULT = {"str": ("s", ""), "u8": ("n", 0), "bool": ("b", False), "char": ("c", "\0")}
+for _t in INT_TYS:
+    TY_CODE[_t] = "I" + ("s" if _t[0] == "i" else "u") + _t[1:]
+    TY_DEFAULT[_t] = ("i", 0)
+
+def int_range(ty):
+    bits = int(ty[1:])
+    return (-(1 << (bits - 1)), (1 << (bits - 1)) - 1) if ty[0] == "i" else (0, (1 << bits) - 1)
 
 def doc_short_long(doc):
     """mirror of command/doc.rs for the doc comments we generate (single paragraph lines or paragraphs separated by blank lines)"""
@@ -446,7 +458,7 @@ def rand_enum(rng, depth=0, used=None):
                 kind = rng.choice(["pos", "opt", "opt", "flag"])
                 if want_sub and kind == "pos":
                     kind = "opt"
-                ty = "bool" if kind == "flag" else rng.choice(["str", "str", "u8", "char", "bool"])
+                ty = "bool" if kind == "flag" else rng.choice(["str", "str", "u8", "char", "bool"] + INT_TYS)
                 if kind == "opt" and ty == "bool":
                     ty = "u8"
                 long_, short = None, None
@@ -460,6 +472,7 @@ def rand_enum(rng, depth=0, used=None):
                     if ty == "str": default = rng.choice([("s", "dflt"), ("v", ("s", "t")), ("d",)])
                     elif ty == "u8": default = rng.choice([("s", "7"), ("v", ("n", 200)), ("d",)])
                     elif ty == "char": default = rng.choice([("s", "z"), ("v", ("c", "ж"))])
+                    elif ty in INT_TYS: default = rng.choice([("s", "7"), ("s", "-0" if ty[0] == "i" else "+0"), ("v", ("i", int_range(ty)[0])), ("v", ("i", int_range(ty)[1])), ("d",)])
                     else: default = rng.choice([("s", "true"), ("v", ("b", True)), ("d",)])
                 valname = rng.choice([None, None, "VAL", "lvl"]) if kind != "flag" else None
                 args.append(arg(f, kind, ty, long=long_, short=short, optional=optional, default=default, valname=valname, doc=rng.choice([None, "Some arg", "Help text."])))
@@ -522,6 +535,11 @@ def sample_value(rng, ty, good=True):
         return rng.choice(["true", "false"]) if good else rng.choice(["1", "True", "yes", ""])
     if ty == "char":
         return rng.choice(["x", "é", "€", "😀", "-"]) if good else rng.choice(["xy", "", "éé"])
+    if ty in INT_TYS:
+        lo, hi = int_range(ty)
+        if good:
+            return rng.choice(["0", "7", "+5", "007", str(hi), str(lo), "-0" if lo < 0 else "+0", "-3" if lo < 0 else "3", "+" + str(hi), "000" + str(hi)])
+        return rng.choice([str(hi + 1), str(lo - 1), "x", "", "1e2", "+", "-", "--1", "+-1", "1 ", "1_0", "0x10", "99999999999999999999999", "-99999999999999999999999", "٣"])
     raise ValueError(ty)
 
 def q(tok):
